@@ -123,3 +123,59 @@ func VH_C10_list() {
 	expRow += "," + vItoa(nSnps) + "," + vItoa(nAmb) + "\n"
 	vAssert("C10.row-text", string(w.buf) == expRow && len(cDone) == 1 && len(cErr) == 0)
 }
+
+// VH_C10_wide: a 14-column sequence (positions >= 10) that equals the reference except in a window of four
+// symbolic columns placed anywhere: the written row.
+func VH_C10_wide() {
+	W := 14
+	BS := vBaseSetTable()
+	SG := vSingleTable()
+	UP := vUpperTable()
+	ref := []byte("ACGTACGTACGTAC")
+	seq := append([]byte{}, ref...)
+	off := vChoice("offset", W-3)
+	for i := off; i < off+4; i++ {
+		seq[i] = vNuc(vName("s", i-off), vSigma34)
+	}
+	ls := vLines(ref, [][]byte{seq}, []string{"id0"})
+	cU := make(chan updownLine, 1)
+	cU <- ls[0]
+	close(cU)
+	w := &vCapture{}
+	cErr := make(chan error, 1)
+	cDone := make(chan bool, 1)
+	writeOutput(w, cU, cErr, cDone)
+	snps, ambs := "", ""
+	nS, nA := 0, 0
+	start := -1
+	for i := 0; i <= W; i++ {
+		amb := i < W && !SG[BS[seq[i]]]
+		if amb {
+			nA++
+			if start < 0 {
+				start = i
+			}
+			continue
+		}
+		if start >= 0 {
+			if ambs != "" {
+				ambs += "|"
+			}
+			if start+1 == i {
+				ambs += vItoa(i)
+			} else {
+				ambs += vItoa(start+1) + "-" + vItoa(i)
+			}
+			start = -1
+		}
+		if i < W && BS[ref[i]]&BS[seq[i]] == 0 {
+			if snps != "" {
+				snps += "|"
+			}
+			snps += string([]byte{ref[i]}) + vItoa(i+1) + string([]byte{UP[seq[i]]})
+			nS++
+		}
+	}
+	exp := "query,SNPs,ambiguities,SNPcount,ambcount\nid0," + snps + "," + ambs + "," + vItoa(nS) + "," + vItoa(nA) + "\n"
+	vAssert("C10.wide.row-text", string(w.buf) == exp)
+}
